@@ -654,6 +654,27 @@ def _index_sources(fn, t, depth=0):
     return set()
 
 
+def _stored_index(fn, t, depth=0):
+    """the table-element field an index value was read from, if any"""
+    from .fsmodel import table_of_term, TABLES
+    t = strip_refs(t)
+    if depth > 8:
+        return None
+    if t[0] == "cast":
+        return _stored_index(fn, t[2], depth + 1)
+    if t[0] == "place":
+        names = [e for e in t[2] if isinstance(e, str)]
+        if any(e in TABLES for e in names[:-1]) or (names and table_of_term(t[1]) is not None):
+            return t
+        return None
+    if t[0] == "var" and isinstance(t[1], int):
+        for d in var_def_terms(fn, t[1]):
+            r = _stored_index(fn, d, depth + 1)
+            if r is not None:
+                return r
+    return None
+
+
 @rule("IX1", ["C08", "C01", "C07"], floor=100,
       doc="index/table agreement: an index obtained from get_volume_by_id only ever subscripts open_volumes, one from get_dir_by_id only open_dirs, one from get_file_by_id only open_files (in every function of volume_mgr, in reads, stores and call arguments) - a slot number of one table is meaningless in another")
 def ix1(F, R):
@@ -684,6 +705,12 @@ def ix1(F, R):
                         continue
                     srcs = _index_sources(fn, e[1])
                     if not srcs:
+                        # an index that was *stored* (read back out of a table element) instead of looked up: swap_remove
+                        # moves elements, so a remembered position names another element after any close
+                        st = _stored_index(fn, e[1])
+                        if st is not None and ("stored", tab, b) not in seen:
+                            seen.add(("stored", tab, b))
+                            R.bad(fn, "stored-index:%s" % tab, "%s is subscripted with a position read from %s: positions change whenever an element is removed (swap_remove), only a handle lookup gives the current one" % (tab, tstr(st)), fn.loc(b))
                         continue
                     key = (tab, tuple(sorted(srcs)), b)
                     if key in seen:
@@ -1826,6 +1853,19 @@ def fc2(F, R):
             ok = is_cluster_field and not through_dir_table and derives_from_call(fn, a, ("FatVolume::find_directory_entry",))
             R.require(ok, fn, "freed-chain=looked-up-entry", "%s is handed %s; it must be the first cluster of the directory entry the name lookup returned" % ((callee_of(t) or "").split("::")[-1], tstr(a)[-90:]), fn.loc(b))
     R.require(n >= 2, None, "sites", "expected the chain-freeing calls of delete_file_in_dir and of the truncating open (2), found %d" % n)
+    # ... and nobody else releases chains: inside the FAT layer no function (other than the two releasing ones themselves)
+    # calls free_cluster_chain / truncate_cluster_chain - a chain is given back only for an entry the manager looked up by
+    # name and was asked to delete / truncate (an entry writer that "tidies up" a chain a stale slot names releases clusters
+    # that belong to another, flushed file by now)
+    for fn in F.fns:
+        if not fn.npath.startswith("fat::") or "::tests" in fn.npath:
+            continue
+        owner = fn.npath if fn.kind != "Closure" else fn.npath.rsplit("::{closure", 1)[0]
+        if owner.endswith("::free_cluster_chain") or owner.endswith("::truncate_cluster_chain"):
+            continue
+        for b, t in fn.calls():
+            if call_matches(t, ("FatVolume::free_cluster_chain", "FatVolume::truncate_cluster_chain")):
+                R.bad(fn, "no-release-below-the-manager", "%s releases a cluster chain by itself (%s): chains are given back only for the entry a delete / truncating open looked up by name" % (owner.split("::")[-1], (callee_of(t) or "").split("::")[-1]), fn.loc(b))
 
 
 @rule("TB1", ["C04", "C02", "C06", "C03"], floor=3,
@@ -2124,3 +2164,34 @@ def cv1(F, R):
         after = fn.reach_after(b)
         late = [x for x in err_returns(fn) if x[0] in after] + [bb for bb, t in fn.calls() if bb in after and (callee_of(t) or "").endswith("FromResidual::from_residual")]
         R.require(not late, fn, "no-error-after-remove", "close_volume can still fail after it has removed the volume from the table", fn.loc(b))
+
+
+@rule("AR1", ["C01", "C15"], floor=25,
+      doc="no 32-bit product of two run-time quantities in the volume manager: every checked multiplication of volume_mgr has a constant factor (sizes and geometry values multiplied with each other - cluster_count * bytes_per_cluster and the like - exceed 32 bits on any volume of 4 GiB and more: a panic, or a wrapped limit that refuses valid files). The crate's other multiplications are listed as what was looked at; FatVolume::cluster_to_block's (cluster - 2) * blocks_per_cluster must be classified as such a product on every run (positive control; its range is CB1's and the mount checks' business)")
+def ar1(F, R):
+    def is_const(fn, o, b):
+        if o["k"] == "const":
+            return True
+        t = strip_refs(fn.term_of_operand(o, b))
+        while t[0] == "cast":
+            t = strip_refs(t[2])
+        return t[0] == "c"
+    n = 0
+    control = False
+    for fn in F.fns:
+        if "::tests" in fn.npath:
+            continue
+        for b in fn.live_blocks():
+            t = fn.term(b)
+            if t["k"] != "Assert" or t.get("kind") != "Overflow:Mul":
+                continue
+            n += 1
+            var2 = not any(is_const(fn, o, b) for o in t["ops"])
+            if fn.npath.endswith("FatVolume::cluster_to_block") and var2:
+                control = True
+            if fn.npath.startswith("volume_mgr::"):
+                R.require(not var2, fn, "product", "%s * %s: a product of two run-time 32-bit quantities, which does not fit 32 bits on large volumes (4 GiB and more)" % tuple(tstr(fn.term_of_operand(o, b))[:60] for o in t["ops"]), fn.loc(b))
+            else:
+                R.ok(fn, "looked-at", "%s * %s" % tuple(tstr(fn.term_of_operand(o, b))[:40] for o in t["ops"]), fn.loc(b))
+    R.require(control, None, "control", "positive control lost: (cluster - 2) * blocks_per_cluster in FatVolume::cluster_to_block is no longer recognised as a product of two run-time values")
+    R.require(n >= 25, None, "sites", "expected >= 25 checked multiplications in the crate, found %d" % n)
